@@ -68,6 +68,11 @@ CHECKS.update({
    text="All histories of updates/recharges over two subscribers up to the depth bound: open and half-closed (modelled) Diameter connections and goroutines of the world are counted exactly before and after every repeated request; long runs of N = 10/100 (thorough 1000) back-to-back and spaced updates must never exceed the resources the first three requests per subscriber needed, also after 60 s of virtual quiet.",
    ref="6 C18", note=TB_E1),
 })
+CHECKS.update({
+ "C07": dict(engine=E1, technique="explicit-state BFS over credit-control request sequences against the real account-balance server (real go-diameter client/server state machines on the modelled network), reference model = map of balances",
+   text="All sequences up to the depth bound of CCRs (4 actions x request types x 11 boundary amounts up to 2^63-1 x 3 accounts + unknown subscriber + unknown rating group) from small and near-2^63 initial balances are sent over a real Diameter connection to the server started by abmf.OpenServer; stored balances, grant, final-unit indication and the echoed Session-Id/type/number are compared with a reference model after every request; absence of an answer is decided at quiescence.",
+   ref="6 C07", note=TB_E1),
+})
 NA_REASON = "check under construction (see DESIGN.md section 6)"
 
 m = {"version": 1, "setup_cmd": "./setup.sh",
